@@ -251,6 +251,7 @@ func c01GenValue(t *rapid.T) c01Case {
 	} else {
 		v = jgenValue(t, o, 0, "v")
 	}
+	v = jgenWrap(t, v, "wrap")
 	c := c01Case{Text: vfBytes(jspell(t, v, "p1"))}
 	switch rapid.IntRange(0, 3).Draw(t, "altKind") {
 	case 0:
